@@ -107,6 +107,15 @@ Fixpoint cum_sums (acc : value) (vs : list value) : list value :=
       acc' :: cum_sums acc' vs'
   end.
 
+(* ties among the (sorted) order keys of a partition: an order-sensitive window function has no
+   backend-independent value then (DESIGN 4.5) *)
+Fixpoint has_ties (ms : list omark) (ks : list (list value)) : bool :=
+  match ks with
+  | k :: ((k' :: _) as rest) =>
+      match cmp_keys ms k k' with Eq => true | _ => has_ties ms rest end
+  | _ => false
+  end.
+
 Definition lit_int (v : value) : option Z := match v with VInt z => Some z | _ => None end.
 
 (* ---------- evaluation ----------
@@ -148,6 +157,8 @@ Fixpoint eval (ctx : list irow) (cur : irow) (e : expr) {struct e} : value :=
               | a :: _ => agg o (map (fun kr => eval ctx (snd kr) a) SP) (List.length P)
               end
           | _ =>
+              if (match o with Op_row_number | Op_shift | Op_cum_sum => true | _ => false end)
+                 && has_ties ms (map fst SP) then VErr else
               match o with
               | Op_row_number =>
                   match index_of (fst cur) SP 0 with Some p => VInt (Z.of_nat (S p)) | None => VErr end
